@@ -435,7 +435,7 @@ def check_c03(tier, seed, t0):
 
 
 MX_CONFIGS_QUICK = [
-    ((), "chk"), (("events",), "chk"), (("wrapping_version",), "rel"), (("32_components",), "chk"), (("32_components", "events", "wrapping_version"), "rel"),
+    ((), "chk"), (("events",), "chk"), (("wrapping_version",), "rel"), (("wrapping_version",), "chk"), (("32_components",), "chk"), (("32_components", "events", "wrapping_version"), "rel"),
 ]
 MX_CONFIGS_ALL = [(tuple(f for f, on in zip(("32_components", "events", "wrapping_version"), (a, b, c)) if on), p) for a in (0, 1) for b in (0, 1) for c in (0, 1) for p in ("chk", "rel")]
 
